@@ -27,6 +27,8 @@ Proof. revert i j; induction vs as [|x r IH]; intros [|i] [|j]; simpl; intros; t
 Lemma wr_same vs i c : nth_error vs i = Some c -> wr vs i c = vs.
 Proof. revert i; induction vs as [|x r IH]; intros [|i]; simpl; intros H; try congruence. now rewrite IH. Qed.
 
+Lemma upd_length vs i g : length (upd vs i g) = length vs.
+Proof. unfold upd. destruct (live_at vs i); [apply wr_length|reflexivity]. Qed.
 Lemma live_wr_same vs i c : i < length vs -> live_at (wr vs i c) i = match c with Live h => Some h | Dead => None end.
 Proof. intros H. unfold live_at. rewrite nth_wr_same by auto. now destruct c. Qed.
 Lemma live_wr_other vs i j c : i <> j -> live_at (wr vs i c) j = live_at vs j.
@@ -46,6 +48,8 @@ Proof.
   intros H. unfold upd. destruct (live_at vs i) as [h|] eqn:E; [|reflexivity].
   rewrite wr_map. apply wr_same. rewrite nth_error_map, (live_at_Some _ _ _ E). simpl. now rewrite H.
 Qed.
+Lemma wr_map_same vs i h : live_at vs i = Some h -> wr (map (abs_cell f) vs) i (Live (f h)) = map (abs_cell f) vs.
+Proof. intros E. apply wr_same. now rewrite nth_error_map, (live_at_Some _ _ _ E). Qed.
 Lemma map_repeat_dead n : map (abs_cell f) (repeat Dead n) = repeat Dead n.
 Proof. induction n; simpl; congruence. Qed.
 End MapLemmas.
@@ -170,6 +174,20 @@ Proof.
   induction l as [|e r IH]; intros L1 L2 E; cbn [sym_run]; [assumption|].
   pose proof (sym_step_ext L1 L2 e E) as H.
   destruct (sym_step L1 e) as [A1|], (sym_step L2 e) as [A2|]; try contradiction; [apply IH; exact H|exact I].
+Qed.
+
+Definition ok (L : lfun) (evs : list ev) (Lf : lfun) : Prop :=
+  exists L', sym_run L evs = Some L' /\ forall x, L' x = Lf x.
+
+Lemma ok_ext_l L M evs Lf : (forall x, L x = M x) -> ok M evs Lf -> ok L evs Lf.
+Proof.
+  intros E [L' [H1 H2]]. pose proof (sym_run_ext evs L M E) as Hx. rewrite H1 in Hx.
+  unfold ok. destruct (sym_run L evs) as [L2|]; [|contradiction]. exists L2. split; [reflexivity|]. intros x. now rewrite Hx.
+Qed.
+Lemma ok_app L M evs1 evs2 Lf : ok L evs1 M -> ok M evs2 Lf -> ok L (evs1 ++ evs2) Lf.
+Proof.
+  intros [L1 [H1 H2]] H. destruct (ok_ext_l L1 M evs2 Lf H2 H) as [L2 [H3 H4]].
+  exists L2. split; [|assumption]. now rewrite sym_run_app, H1.
 Qed.
 
 Lemma desc_empty_closed s : desc s (fun _ => false) -> blocks s = [] /\ live s = [].
@@ -299,35 +317,38 @@ Lemma finish_ok vs L : (forall o, L o = hlive vs o) ->
 Proof. intros HL. apply (finish_from_ok vs [] L). exact HL. Qed.
 End HLive.
 
-(* generic closing argument: a step function whose every step keeps [desc _ (hlive vs)] *)
+(* generic closing argument: a step function whose every (permitted) step keeps [desc _ (hlive vs)] *)
 Section Closed.
 Context {H Op : Type}.
 Variable engf : H -> bool.
 Variable step : vars H -> Op -> vars H * out * list ev.
 Variable dtor : nat -> H -> list ev.
+Variable okb : vars H -> Op -> bool.
 Hypothesis dtor_spec : forall i h, dtor i h = if engf h then [EDestroy (sv i)] else [].
-Hypothesis step_ok : forall vs o, exists L',
+Hypothesis step_ok : forall vs o, okb vs o = true -> exists L',
   sym_run (hlive engf vs) (snd (step vs o)) = Some L' /\ forall x, L' x = hlive engf (fst (fst (step vs o))) x.
 
-Lemma run_log_ok ops : forall vs, exists L',
+Lemma run_log_ok ops : forall vs, api_ok step okb vs ops = true -> exists L',
   sym_run (hlive engf vs) (snd (run step vs ops)) = Some L' /\
   forall x, L' x = hlive engf (fst (fst (run step vs ops))) x.
 Proof.
-  induction ops as [|o ops IH]; intros vs; cbn [run].
+  induction ops as [|o ops IH]; intros vs Hok; cbn [run api_ok] in *.
   - exists (hlive engf vs). split; reflexivity.
-  - destruct (step_ok vs o) as [L1 [H1 H2]]. destruct (step vs o) as [[vs1 x] e] eqn:Es. cbn [fst snd] in *.
+  - apply andb_true_iff in Hok. destruct Hok as [Hok1 Hok2].
+    destruct (step_ok vs o Hok1) as [L1 [H1 H2]]. destruct (step vs o) as [[vs1 x] e] eqn:Es. cbn [fst snd] in *.
     destruct (stops x); cbn [fst snd]; [exists L1; split; assumption|].
-    destruct (IH vs1) as [L2 [H3 H4]]. destruct (run step vs1 ops) as [[vs2 xs] e2]. cbn [fst snd] in *.
+    destruct (IH vs1 Hok2) as [L2 [H3 H4]]. destruct (run step vs1 ops) as [[vs2 xs] e2]. cbn [fst snd] in *.
     rewrite sym_run_app, H1.
     pose proof (sym_run_ext e2 L1 (hlive engf vs1) H2) as Hx. rewrite H3 in Hx.
     destruct (sym_run L1 e2) as [L3|]; [|contradiction].
     exists L3. split; [reflexivity|]. intros y. now rewrite Hx.
 Qed.
 
-Theorem closed_log n ops :
+Theorem closed_log_cond n ops : api_ok step okb (repeat Dead n) ops = true ->
   wf_closed (snd (run step (repeat Dead n) ops) ++ finish dtor (fst (fst (run step (repeat Dead n) ops)))) = true.
 Proof.
-  destruct (run_log_ok ops (repeat Dead n)) as [L1 [H1 H2]].
+  intros Hok.
+  destruct (run_log_ok ops (repeat Dead n) Hok) as [L1 [H1 H2]].
   destruct (finish_ok engf dtor dtor_spec (fst (fst (run step (repeat Dead n) ops))) L1 H2) as [L2 [H3 H4]].
   assert (D0 : desc ls0 (hlive engf (repeat Dead n))).
   { split; [reflexivity|]. intros o. now rewrite hlive_repeat_dead. }
@@ -339,3 +360,43 @@ Proof.
   destruct (desc_empty_closed s' (desc_ext _ _ _ D H4)) as [Hb Hl]. now rewrite Hb, Hl.
 Qed.
 End Closed.
+
+Lemma api_ok_trivial {S Op} (step : S -> Op -> S * out * list ev) ops : forall s, api_ok step (fun _ _ => true) s ops = true.
+Proof.
+  induction ops as [|o r IH]; intros s; cbn [api_ok andb]; [reflexivity|].
+  destruct (step s o) as [[s1 x] e]. destruct (stops x); auto.
+Qed.
+
+Theorem closed_log {H Op} (engf : H -> bool) (step : vars H -> Op -> vars H * out * list ev) (dtor : nat -> H -> list ev)
+  (dtor_spec : forall i h, dtor i h = if engf h then [EDestroy (sv i)] else [])
+  (step_ok : forall vs o, exists L',
+     sym_run (hlive engf vs) (snd (step vs o)) = Some L' /\ forall x, L' x = hlive engf (fst (fst (step vs o))) x)
+  n ops :
+  wf_closed (snd (run step (repeat Dead n) ops) ++ finish dtor (fst (fst (run step (repeat Dead n) ops)))) = true.
+Proof.
+  apply (closed_log_cond engf step dtor (fun _ _ => true) dtor_spec (fun vs o _ => step_ok vs o)).
+  apply api_ok_trivial.
+Qed.
+
+(* ------------------------------------------------------------------ automation for per-op log lemmas *)
+Lemma fst_sv i : fst (sv i) = 0. Proof. reflexivity. Qed.
+Lemma fst_st d : fst (st d) = 0. Proof. reflexivity. Qed.
+Lemma fst_sa : fst sa = 0. Proof. reflexivity. Qed.
+Lemma obj_eqb_sa_sa : obj_eqb sa sa = true. Proof. reflexivity. Qed.
+
+Ltac objs_simp :=
+  repeat first
+    [ rewrite fst_sv | rewrite fst_st | rewrite fst_sa
+    | rewrite hlive_sv | rewrite hlive_sa | rewrite hlive_st
+    | rewrite eqb_sv_sv | rewrite eqb_sv_st | rewrite eqb_st_sv | rewrite eqb_sv_sa | rewrite eqb_sa_sv
+    | rewrite eqb_st_st | rewrite eqb_st_sa | rewrite eqb_sa_st | rewrite obj_eqb_sa_sa | rewrite obj_eqb_refl
+    | rewrite Nat.eqb_refl
+    | progress cbn [andb orb negb Nat.eqb] ].
+
+Ltac lt_vars :=
+  match goal with
+  | H : live_at ?vs ?i = Some _ |- ?i < length ?vs => exact (nth_lt _ _ _ (live_at_Some _ _ _ H))
+  | H : dead_at ?vs ?i = true |- ?i < length ?vs => exact (nth_lt _ _ _ (dead_at_true _ _ H))
+  | |- ?i < length (wr _ _ _) => rewrite wr_length; lt_vars
+  | |- ?i < length (upd _ _ _) => rewrite upd_length; lt_vars
+  end.
